@@ -249,6 +249,33 @@ pub fn run(ctx: &Ctx) {
 
     super::regressions::run(ctx, "C07", |j| replay(j));
 
+    // ---- A0: the derivation depends on the token sequence only: texts that differ in whitespace but denote DIFFERENT token
+    // sequences (a line break ends a comment; whitespace inside a string is content), parsed right after each other as the
+    // first parses of this process, each compared with the (stateless) reference parser
+    let groups: Vec<Vec<&str>> = vec![
+        vec!["x // note\n + y", "x // note + y", "x // note\r\n + y", "x + y"],
+        vec!["[x, // first\n y]", "[x, // first y]", "[x, y]"],
+        vec!["x contains \"a b\"", "x contains \"a  b\"", "x contains \"a\tb\"", "x contains \"ab\""],
+        vec!["a //\n b", "a // b", "a /\n/ b", "a / / b"],
+        vec!["i1 + i 2", "i1 + i2", "i 1 + i2", "i1+i2"],
+        vec!["if a then b else c", "if a then b else c ", "ifa then b else c", "if a thenb else c"],
+        vec!["a. b .0", "a.b.0", "a .b. 0", "a.b .0 "],
+        vec!["f (a)", "f(a)", "f ( a )", "f\n(a)"],
+    ];
+    ctx.list(
+        "whitespace-vs-token-sequence",
+        &groups,
+        |g, acc| {
+            acc.case("ws-group", true, || format!("{g:?}"));
+            for t in g {
+                check_text_against(t, crate::model::parse::parse_expr(t))?;
+            }
+            Ok(())
+        },
+        |g| json!({"text_group": g}),
+        "group",
+    );
+
     let alpha = alphabet();
     let n = alpha.len() as u64;
 
@@ -547,6 +574,15 @@ pub fn replay(j: &serde_json::Value) -> Option<Verdict> {
             out.push(l.remove(0));
         }
         return Some(check_tokens(&out));
+    }
+    if let Some(g) = j.get("text_group").and_then(|x| x.as_array()) {
+        for t in g {
+            let t = t.as_str()?;
+            if let Err(i) = check_text_against(t, crate::model::parse::parse_expr(t)) {
+                return Some(Err(i));
+            }
+        }
+        return Some(Ok(()));
     }
     if let Some(text) = j.get("source_text").and_then(|t| t.as_str()) {
         return Some(check_text_against(text, crate::model::parse::parse_expr(text)));
